@@ -36,13 +36,16 @@ def gen(rng):
     for s in sels:
         ops.append(dict({'k': 'battery'}, **s))
     # outside change
-    change = rng.choice(['add-u', 'add-a2', 'add-ax', 'remove-e', 'remove-ax', 'add-axx'])
+    change = rng.choice(['add-u', 'add-a2', 'add-ax', 'remove-e', 'remove-ax', 'add-axx', 'add-ax-a2', 'add-ax-a2'])
     if change == 'add-u':
         ops.append(multi.add_op(W, ['u:1'], v))
     elif change == 'add-a2' and 'a:2' in W:
         ops.append(multi.add_op(W, ['a:2'], v))
     elif change == 'add-ax':
         ops.append(multi.add_op(W, ['ax:1'], v))
+    elif change == 'add-ax-a2' and 'a:2' in W:
+        # one file: the extension of a:1, then another version of a:1 with the same entity ids
+        ops.append(multi.add_op(W, ['ax:1', 'a:2'], v))
     elif change == 'remove-e':
         ops.append({'k': 'remove', 'spec': 'e:1', '_removed': ['e:1']})
     elif change == 'remove-ax':
@@ -228,7 +231,7 @@ def judge(ctx, sc, im):
 
 def m_f12_f13(clause, scenario, detail):
     return clause == 'frame:forms/tags/pronunciations-of-an-unselected-extension-leak-into-the-selection' and \
-        scenario.get('change') in ('add-ax', 'remove-ax', 'add-axx')
+        scenario.get('change') in ('add-ax', 'remove-ax', 'add-axx', 'add-ax-a2')       # every change that installs / removes the extension ax:1
 
 
 def m_f5(clause, scenario, detail):
